@@ -91,10 +91,29 @@ def dup(s, how):
     return pickle.loads(pickle.dumps(s, protocol=int(how[6:])))
 
 
-def mutate_and_compare(ctx, cid, a, b, how, shares_buffer, d):
-    """mutate a, check b unchanged; a and b are equal samples."""
+def used(s):
+    """a sample every attribute of which has been read before (an object in ordinary use, nothing left to initialise)."""
+    fp(s, ident=False)
+    return s
+
+
+def mutate_and_compare(ctx, cid, a, b, how, shares_buffer, d, untouched=False):
+    """mutate a, check b unchanged; a and b are equal samples.  untouched: nothing is read from b before a is changed
+    (the reference is a's own fingerprint before the change): independence must not wait for b's first use."""
     ok = True
-    before = fp(b, ident=False)
+    before = fp(a if untouched else b, ident=False)
+    if untouched:
+        # all changes to a first, then the first look at b
+        how += ':before-first-read'
+        if a.size and not shares_buffer and np.asarray(a).flags.writeable:
+            a[0, 0] = a[0, 0] + 1
+        r = a.range(0)
+        if r is not None:
+            r[0] = -999.5
+        a.text['RV-NEW-KEY'] = 'x'
+        a.analysis['RV-NEW-KEY'] = 'y'
+        return ctx.check(fp(b, ident=False) == before, 'independent:shared-until-first-read', cid, how=how,
+                         first_diff=diff(before, fp(b, ident=False)), **d)
     if a.size and not shares_buffer:
         a_flat = np.asarray(a)
         if a_flat.flags.writeable:
@@ -187,10 +206,19 @@ def run(ctx):
                 base = s.copy()
                 c1 = dup(base, how)
                 mutate_and_compare(ctx, cid, base, c1, how + ':orig-mutated', True, d)
+                base = used(s.copy())
+                c1 = dup(base, how)
+                mutate_and_compare(ctx, cid, base, c1, how + ':orig-mutated', True, d, untouched=True)
             else:
                 base = s.copy()
                 c1 = dup(base, how)
                 mutate_and_compare(ctx, cid, c1, base, how + ':dup-mutated', False, d)
+                base = used(s.copy())
+                c1 = dup(base, how)
+                mutate_and_compare(ctx, cid, base, c1, how + ':orig-mutated', False, d, untouched=True)
+                base = used(s.copy())
+                c1 = dup(base, how)
+                mutate_and_compare(ctx, cid, c1, base, how + ':dup-mutated', False, d, untouched=True)
                 base = s.copy()
                 c1 = dup(base, how)
                 mutate_and_compare(ctx, cid, base, c1, how + ':orig-mutated', False, d)
